@@ -9,6 +9,7 @@ pub mod c13;
 pub mod c14;
 pub mod c18;
 pub mod c20;
+pub mod c21;
 
 fn one(_: Tier) -> usize { 1 }
 
@@ -20,6 +21,7 @@ pub fn all() -> Vec<CheckDef> {
         CheckDef { id: "C14", shards: one, run: c14::run, replay: Some(c14::replay) },
         CheckDef { id: "C18", shards: one, run: c18::run, replay: Some(c18::replay) },
         CheckDef { id: "C20", shards: one, run: c20::run, replay: Some(c20::replay) },
+        CheckDef { id: "C21", shards: one, run: c21::run, replay: Some(c21::replay) },
     ]
 }
 
